@@ -106,6 +106,7 @@ def case : P String := do
   | .ok _, .error _ => pure "rejected"
   | .ok maxSpeed, .ok v =>
     let s0 := v.initialStateWith socOverride
+    let noCache := caches.main.isNone && caches.sustain.isNone
     let rec go (es : List (Edge Float)) (st : VState Float × Caches Key Float) (acc : List String) :
         List String × VState Float :=
       match es with
@@ -113,7 +114,17 @@ def case : P String := do
       | e :: r =>
         match traverseEdge svc eng v fu e st with
         | .error x => ((("err " ++ errClass x) :: acc).reverse, st.1)
-        | .ok st' => go r st' (("ok " ++ showState kind st'.1) :: acc)
+        | .ok st' =>
+          -- without a cache: the speed and grade handed to the predictor on this edge
+          let probe :=
+            if noCache then
+              match eng.traverse fu e st.1, getGrade svc.gradeTable e.id with
+              | .ok s1, .ok g =>
+                " p " ++ floatOut (reconstructSpeed svc fu e st.1 s1) ++ " " ++ floatOut g ++ " "
+                  ++ svc.timeModelSpeedUnit.name ++ " " ++ svc.gradeUnit.name
+              | _, _ => " p none"
+            else ""
+          go r st' (("ok " ++ showState kind st'.1 ++ probe) :: acc)
     let (steps, last) := go edges (s0, caches) []
     let (bce, bcu) := v.bestCaseEnergy bcd svc.distanceUnit
     let bcs := v.bestCaseEnergyState fu bcd svc.distanceUnit last
